@@ -63,7 +63,18 @@ pub fn check_case(ctx: &Ctx, st: &mut Stats, c: &Case, tag: &str) {
     }
     if c.io == 2 {
         // the output file already exists and is longer than what will be written
-        let _ = std::fs::write(&output, super::common::stale_content());
+        if c.csv.len() % 2 == 0 {
+            let _ = std::fs::write(&output, super::common::stale_content());
+        } else {
+            // ... or is what an EARLIER run of the tool wrote there for another graph
+            let earlier = dir.join("earlier graph.csv");
+            let _ = std::fs::write(&earlier, "p,q\nq,r\nr,p\nr,s\n");
+            let mut first: Vec<String> = args.iter().filter(|a| a.starts_with('-')).cloned().collect();
+            first.push(earlier.display().to_string());
+            first.push(output.display().to_string());
+            let _ = cli::run(&ctx.bin("max_clique_gen"), &first, None, Some(&dir), None, Duration::from_secs(60));
+            st.bump("outputs_onto_a_file_left_by_an_earlier_run");
+        }
         args.push(output.display().to_string());
     }
     let out = cli::run_fed(&ctx.bin("max_clique_gen"), &args, plan.stdin.as_deref(), &plan.feed, Some(&dir), None, Duration::from_secs(60));
